@@ -51,6 +51,7 @@ from .ast_nodes import (
 )
 from .opcodes import OpCode
 from .values import UNDEFINED
+from .errors import JSError
 
 
 @dataclass
@@ -155,11 +156,26 @@ class Compiler:
         if arg is not None:
             if opcode in self._JUMP_OPCODES:
                 # 16-bit little-endian for jump targets
+                self._check_jump_target(arg)
                 self.bytecode.append(arg & 0xFF)
                 self.bytecode.append((arg >> 8) & 0xFF)
             else:
+                if not 0 <= arg <= 0xFF:
+                    raise JSError(
+                        f"Program too large: operand {arg} of {opcode.name} does not fit in "
+                        "one byte (more than 255 constants, names, variables, arguments or "
+                        "literal elements in one function)"
+                    )
                 self.bytecode.append(arg)
         return pos
+
+    def _check_jump_target(self, target: int) -> None:
+        """Refuse code whose jump targets do not fit the 16-bit encoding."""
+        if not 0 <= target <= 0xFFFF:
+            raise JSError(
+                f"Program too large: jump target {target} is beyond the 64 KB of bytecode "
+                "one function may have"
+            )
 
     def _set_loc(self, node: Node) -> None:
         """Set current source location from an AST node."""
@@ -184,6 +200,7 @@ class Compiler:
         """
         if target is None:
             target = len(self.bytecode)
+        self._check_jump_target(target)
         self.bytecode[pos + 1] = target & 0xFF  # Low byte
         self.bytecode[pos + 2] = (target >> 8) & 0xFF  # High byte
 
